@@ -151,13 +151,13 @@ class NatafTransformation:
                 
                 rst = solve( func=func, x0=self.rhoX[ i, j ] )
                 if rst[ 2 ] == 1:
-                    self.rhoZ[ i, j ] = rst[ 0 ]
+                    self.rhoZ[ i, j ] = rst[ 0 ][ 0 ]
                     self.rhoZ[ j, i ] = self.rhoZ[ i, j ]
                     continue
 
                 rst = solve( func=func, x0=-self.rhoX[ i, j ] )
                 if rst[ 2 ] == 1:
-                    self.rhoZ[ i, j ] = rst[ 0 ]
+                    self.rhoZ[ i, j ] = rst[ 0 ][ 0 ]
                     self.rhoZ[ j, i ] = self.rhoZ[ i, j ]
                     continue
 
@@ -166,7 +166,7 @@ class NatafTransformation:
                 for k in np.linspace( -0.9, 0.9, 19 ):
                     rst = solve( func=func, x0=k )
                     if rst[ 2 ] == 1:
-                        self.rhoZ[ i, j ] = rst[ 0 ]
+                        self.rhoZ[ i, j ] = rst[ 0 ][ 0 ]
                         self.rhoZ[ j, i ] = self.rhoZ[ i, j ]
                         break
                 
